@@ -36,6 +36,7 @@ func (rmc *MailboxCentral) Close() {
 	defer rmc.lock.Unlock()
 
 	for _, mailbox := range rmc.mailboxes {
+		mailbox.flush()
 		mailbox.connectionLock.Lock()
 		if mailbox.connection != nil {
 			if err := mailbox.connection.Close(); err != nil {
